@@ -87,7 +87,9 @@ Definition exec_cmd (cf : sconf) (idx : N) (line : bytes) : bytes + bytes :=
       inr (ack_line (match args with c :: _ => dec_value c | [] => 50 end) idx name (b "boom"))
     else if beq name (b "pfail") then
       (* fails after it has already written part of its output: the client must drop that partial frame *)
+      (* ... further arguments are key/value pairs it had written as well (lines that would mean something to the NEXT reply's reader) *)
       inr (field_line (b "partial") (match args with _ :: v :: _ => v | _ => b "x" end) ++ field_line (b "file") (b "a.flac") ++
+           kv_fields (match args with _ :: _ :: r => r | _ => [] end) ++
            ack_line (match args with c :: _ => dec_value c | [] => 50 end) idx name (b "boom"))
     else if beq name (b "bin") then
       let n := match args with c :: _ => N.to_nat (dec_value c) | [] => O end in
@@ -105,10 +107,12 @@ Definition exec_cmd (cf : sconf) (idx : N) (line : bytes) : bytes + bytes :=
       | _, _ => inl []
       end
     else if beq name (b "readpicture") || beq name (b "albumart") then
+      (* a server of few words: for songs whose URI starts with "terse" the message text of every ACK is empty (legal: the text is free) *)
+      let say (m : bytes) : bytes := match args with u :: _ => if is_prefix (b "terse") u then [] else m | [] => m end in
       if beq name (b "readpicture") && sc_no_readpicture cf
-      then inr (ack_line 5 idx [] (b "unknown command ""readpicture"""))
+      then inr (ack_line 5 idx [] (say (b "unknown command ""readpicture""")))
       else if beq name (b "readpicture") && match sc_rp_err cf with Some _ => true | None => false end
-      then inr (ack_line (match sc_rp_err cf with Some c => c | None => 0 end) idx name (b "err"))
+      then inr (ack_line (match sc_rp_err cf with Some c => c | None => 0 end) idx name (say (b "err")))
       else
         match args with
         | [uri; off] =>
@@ -124,7 +128,7 @@ Definition exec_cmd (cf : sconf) (idx : N) (line : bytes) : bytes + bytes :=
             end
           else
             match sc_pic_file cf with
-            | None => if sc_file_ack cf then inr (ack_line 50 idx name (b "No file exists")) else inl []
+            | None => if sc_file_ack cf then inr (ack_line 50 idx name (say (b "No file exists"))) else inl []
             | Some pic =>
               if N.of_nat (length pic) <? o then inr (ack_line 2 idx name (b "Bad file offset"))
               else inl (picture_reply_v (hdr_variant uri) pic None (limit_at cf o) o)
